@@ -16,6 +16,7 @@ mod text;
 mod logconc;
 mod stab;
 mod collector;
+mod spinlock;
 mod cleanup;
 
 /// No single allocation above the limit: a reader that sizes a buffer from damaged bytes must not take the
@@ -61,6 +62,7 @@ fn main() {
         "mani-cuts" => mani_run::cuts(&args[2..]),
         "stab-replay" => stab::main(&args[2..]),
         "collector-stress" => collector::main(&args[2..]),
+        "spinlock-stress" => spinlock::main(&args[2..]),
         "cleanup-replay" => cleanup::main(&args[2..]),
         "logconc-stress" => logconc::main(&args[2..]),
         "text-replay" => text::main(&args[2..]),
